@@ -71,7 +71,7 @@ def run(ctx):
         names = {}
 
         def ren(t):
-            return re.sub(r'__ckd_calloc__\(1, \d+, "[^"]*", \d+\)', lambda m: names.setdefault(m.group(0), "NEW%d" % (len(names) + 1)), t)
+            return re.sub(r'__ckd_calloc__\(1, \d+, "[^"]*", \d+\)(#\d+)?', lambda m: names.setdefault(m.group(0), "NEW%d" % (len(names) + 1)), t)
         st_ = [(ren(ev_[1]), ren(lin.p_str(ev_[2]))) for ev_ in pt.events if ev_[0] == "store" and ("->" in ev_[1] or "." in ev_[1]) and ev_[1] != "h->inuse"]
         ret = lin.p_str(pt.ret) if pt.ret is not None else None
         if found is None:
